@@ -8,7 +8,7 @@ from skgstat import Variogram, models
 vmod = sys.modules['skgstat.Variogram']
 
 SINGLE = ['spherical', 'exponential', 'gaussian', 'cubic', 'stable', 'matern']
-SUMS = ['spherical+gaussian', 'exponential+spherical', 'stable+cubic', 'spherical+exponential+gaussian']
+SUMS = ['spherical+gaussian', 'exponential+spherical', 'stable+cubic', 'spherical+exponential+gaussian', 'spherical+spherical', 'exponential+gaussian+exponential']
 TRUSTED = [
     'Coq 8.16.1 kernel (coqc, full .vo builds; vm_compute for the in-Coq golden cases); no native_compute',
     'extraction: ExtrOcamlBasic only, no Extract Constant; OCaml 4.13.1 + tools/ocaml/driver.ml',
